@@ -8,6 +8,9 @@ use binrw::{BinRead, BinWrite};
 use cascette_crypto::{ContentKey, EncodingKey};
 use std::io::{Cursor, Read};
 
+/// Size of one page index entry in the file: 16-byte first key + 16-byte checksum
+const INDEX_ENTRY_SIZE: usize = 32;
+
 /// Page data with entries
 #[derive(Debug, Clone)]
 pub struct Page<T> {
@@ -36,6 +39,30 @@ pub struct EncodingFile {
     pub trailing_espec: Option<String>,
 }
 
+/// Number of bytes left between the cursor position and the end of the input
+fn remaining_len(cursor: &Cursor<&[u8]>) -> usize {
+    let len = cursor.get_ref().len();
+    len.saturating_sub(usize::try_from(cursor.position()).unwrap_or(len))
+}
+
+/// Read exactly `len` bytes from the cursor.
+///
+/// `len` comes from header fields, so it is checked against the remaining
+/// input before the buffer is allocated. A short input yields the same
+/// `UnexpectedEof` I/O error that `read_exact` reports.
+fn read_block(cursor: &mut Cursor<&[u8]>, len: usize) -> Result<Vec<u8>, EncodingError> {
+    if len > remaining_len(cursor) {
+        return Err(std::io::Error::new(
+            std::io::ErrorKind::UnexpectedEof,
+            "failed to fill whole buffer",
+        )
+        .into());
+    }
+    let mut block = vec![0u8; len];
+    cursor.read_exact(&mut block)?;
+    Ok(block)
+}
+
 impl EncodingFile {
     /// Parse `CKey` pages from cursor
     fn parse_ckey_pages(
@@ -52,8 +79,7 @@ impl EncodingFile {
         let min_entry_size = 1 + 5 + ckey_hash_size as u64;
 
         for index in ckey_index {
-            let mut page_data = vec![0u8; ckey_page_size];
-            cursor.read_exact(&mut page_data)?;
+            let page_data = read_block(cursor, ckey_page_size)?;
 
             // Verify checksum
             if !index.verify(&page_data) {
@@ -120,8 +146,7 @@ impl EncodingFile {
         let min_entry_size = ekey_hash_size as u64 + 4 + 5;
 
         for index in ekey_index {
-            let mut page_data = vec![0u8; ekey_page_size];
-            cursor.read_exact(&mut page_data)?;
+            let page_data = read_block(cursor, ekey_page_size)?;
 
             // Verify checksum
             if !index.verify(&page_data) {
@@ -216,12 +241,14 @@ impl EncodingFile {
         header.validate()?;
 
         // Read ESpec table (comes right after header per CASC specification)
-        let mut espec_data = vec![0u8; header.espec_block_size as usize];
-        cursor.read_exact(&mut espec_data)?;
+        let espec_data = read_block(&mut cursor, header.espec_block_size as usize)?;
         let espec_table = ESpecTable::parse(&espec_data)?;
 
         // Read CKey index
-        let mut ckey_index = Vec::with_capacity(header.ckey_page_count as usize);
+        // Each index entry takes 32 input bytes, so the input bounds the count
+        let mut ckey_index = Vec::with_capacity(
+            (header.ckey_page_count as usize).min(remaining_len(&cursor) / INDEX_ENTRY_SIZE),
+        );
 
         for _ in 0..header.ckey_page_count {
             // Read index entry manually to avoid binrw issues
@@ -236,7 +263,9 @@ impl EncodingFile {
         let ckey_pages = Self::parse_ckey_pages(&mut cursor, &header, &ckey_index)?;
 
         // Read EKey index
-        let mut ekey_index = Vec::with_capacity(header.ekey_page_count as usize);
+        let mut ekey_index = Vec::with_capacity(
+            (header.ekey_page_count as usize).min(remaining_len(&cursor) / INDEX_ENTRY_SIZE),
+        );
         for _ in 0..header.ekey_page_count {
             // Read index entry manually to avoid binrw issues
             let mut first_key = [0u8; 16];
